@@ -13,6 +13,18 @@ CLAIMED = {
     'C04': ('s5/C04', TECH + 'Real interpretation with cut at published coefficients/durations',
             'getEnergy equals the exact integral of the squared s-th derivative for EVERY coefficient set and every positive duration (cut points), on all construction/update routes incl. re-fit after an energy query; non-negativity of the closed form for N=1.',
             'as C01; sizes N<=3(4), DIM<=3(4,10)'),
+    'C05': ('s5/C05', TECH + 'Real interpretation + exact forward-mode AD of the recorded construction DAG; UF for history independence',
+            'propagateGrad equals J^T g with the Jacobian taken by AD of the real construction code, for every data value and every upstream-gradient entry (all symbolic), for all positive durations up to the T-all caps and for grid duration vectors beyond; value and reference overloads; independence of earlier calls and of reused output structs (node identity).',
+            'as C01; gradient caps in evidence'),
+    'C06': ('s5/C06', TECH + 'Real interpretation + AD; cut at coefficients for the partials',
+            'Analytic energy gradients equal the AD derivative of the recorded getEnergy through the construction map; partial gradients equal the derivatives of the exact energy integral for every coefficient set (cut); propagateGrad(partials) equals the analytic gradients; reference overloads into dirty pre-sized buffers equal the value overloads.',
+            'as C01'),
+    'C13': ('s5/C13', TECH + 'merged DAGs of the D-dim and D one-dimensional runs; UF (node identity) first, Real otherwise',
+            'D-dimensional coefficients, evaluations, propagated and energy point/boundary gradients are node-identical (bit-identical) or exactly equal to those of the 1-D splines of each coordinate; energy and duration gradients are the sums; coordinate permutations permute outputs. D in {2,3,4(,10)}.',
+            'as C01'),
+    'C14': ('s5/C14', TECH + 'Real interpretation for the scaling/translation/reversal relations, UF for start-time independence',
+            'Shift, translation, data scaling, time scaling and time reversal relations on coefficients (via all Taylor coefficients of every piece), energy and energy gradients, with symbolic shift / translation / scale factors; the transformed problem is also applied by re-updating the original object.',
+            'as C01'),
 }
 QUICK = './check %s --tier quick'
 THOR = './check %s --tier thorough'
